@@ -13,7 +13,10 @@
 #include <QJsonArray>
 #include <QJsonDocument>
 #include <QJsonObject>
+#include <QDateTime>
+#include <QDir>
 #include <QLoggingCategory>
+#include <QTemporaryDir>
 #include <QSettings>
 #include <QTimer>
 
@@ -22,6 +25,7 @@
 #include <unistd.h>
 
 #include "logger.h"
+#include "sinks/filesink.h"
 #include "utils.h"
 
 using namespace QtLogger;
@@ -124,7 +128,29 @@ int main(int argc, char **argv)
                     const QJsonObject op = v.toObject();
                     const QString kind = op["op"].toString();
                     QJsonObject o;
-                    if (kind == "rules") {
+                    if (kind == "timepath") {
+                        // FileSink expands a %{time <format>} pattern in its path when it is constructed
+                        o["e"] = "TimePath";
+                        o["arg"] = op["arg"];
+                        QTemporaryDir tmp;
+                        const QString fmt = op["fmt"].toString();
+                        const QString eff = fmt.isEmpty() ? QStringLiteral("yyyyMMdd_hhmmss") : fmt;
+                        QJsonArray rendered;
+                        rendered.append(QDateTime::currentDateTime().toString(eff));
+                        {
+                            FileSink sink(tmp.path() + QStringLiteral("/") + op["arg"].toString());
+                            QMessageLogContext ctx("f.cpp", 1, "void f()", "c");
+                            LogMessage m(QtInfoMsg, ctx, QStringLiteral("x"));
+                            sink.send(m);
+                            sink.flush();
+                        }
+                        rendered.append(QDateTime::currentDateTime().toString(eff));
+                        o["rendered"] = rendered;
+                        QJsonArray names;
+                        for (const QString &n : QDir(tmp.path()).entryList(QDir::Files | QDir::Hidden, QDir::Name))
+                            names.append(n);
+                        o["names"] = names;
+                    } else if (kind == "rules") {
                         o["e"] = "Rules";
                         o["arg"] = op["arg"];
                         auto probe = [&op]() {
